@@ -83,8 +83,10 @@ type c06Key struct {
 type c06Space struct {
 	keys     []c06Key
 	incrCmds []int // per key: which command creates it in the incremental path
-	scripts  int
-	filt     filterConf
+	// target.db of the incremental path (-1: keep the source database)
+	incrTargetDB int
+	scripts      int
+	filt         filterConf
 }
 
 func (s c06Space) String() string {
@@ -92,7 +94,7 @@ func (s c06Space) String() string {
 	for _, k := range s.keys {
 		ks = append(ks, fmt.Sprintf("%d/%q", k.db, k.key))
 	}
-	return fmt.Sprintf("filters %+v scripts=%d keys=[%s]", s.filt, s.scripts, strings.Join(ks, " "))
+	return fmt.Sprintf("filters %+v scripts=%d incremental-target.db=%d keys=[%s]", s.filt, s.scripts, s.incrTargetDB, strings.Join(ks, " "))
 }
 
 func drawC06Space(t *rapid.T) c06Space {
@@ -107,7 +109,13 @@ func drawC06Space(t *rapid.T) c06Space {
 		s.keys = append(s.keys, k)
 		s.incrCmds = append(s.incrCmds, rapid.IntRange(0, 3).Draw(t, "incrCmd"))
 	}
+	if !seen["lua"] && rapid.IntRange(0, 4).Draw(t, "keyNamedLua") == 0 {
+		// an ordinary key whose name equals the name of the script records
+		s.keys = append(s.keys, c06Key{db: rapid.SampledFrom([]int{0, 1, 2}).Draw(t, "luadb"), key: "lua"})
+		s.incrCmds = append(s.incrCmds, 0)
+	}
 	s.scripts = rapid.IntRange(0, 2).Draw(t, "scripts")
+	s.incrTargetDB = rapid.SampledFrom([]int{-1, -1, 0, 1, 3}).Draw(t, "incrTargetDB")
 	var names []string
 	for _, k := range s.keys {
 		names = append(names, k.key)
@@ -269,7 +277,8 @@ func c06Paths(t *rapid.T) {
 	}
 	// incremental sync: SELECT db; SET key; plus script commands and OPINFO
 	{
-		c := incrConf{filt: s.filt, targetDB: -1, senderCount: 1024, senderSize: 104857600}
+		// a fixed target database does not change which keys pass (the db filter looks at the source database)
+		c := incrConf{filt: s.filt, targetDB: s.incrTargetDB, senderCount: 1024, senderSize: 104857600}
 		c.filt.slots = nil // the slot list only applies to the full phase
 		c.apply()
 		st := &incrStream{}
@@ -309,6 +318,21 @@ func c06Paths(t *rapid.T) {
 		in.waitApplied(want, 3*time.Second)
 		time.Sleep(600 * time.Millisecond)
 		got := arrived(srv)
+		if s.incrTargetDB != -1 {
+			// everything lands in the fixed database: map it back to the source database of the (unique) key name
+			back := map[string]bool{}
+			for id := range got {
+				name := id[strings.Index(id, "/")+1:]
+				src := id
+				for _, k := range s.keys {
+					if k.key == name && strings.HasPrefix(id, fmt.Sprintf("%d/", s.incrTargetDB)) {
+						src = fmt.Sprintf("%d/%s", k.db, name)
+					}
+				}
+				back[src] = true
+			}
+			got = back
+		}
 		var cmds []string
 		for _, a := range in.observed() {
 			cmds = append(cmds, a.name)
